@@ -13,6 +13,7 @@ import (
 	"os"
 	"os/exec"
 	"path/filepath"
+	"runtime"
 	"runtime/pprof"
 	"strconv"
 	"strings"
@@ -193,6 +194,9 @@ func main() {
 		if err != nil {
 			os.Exit(4)
 		}
+		if rf.GOMAXPROCS > 0 {
+			runtime.GOMAXPROCS(rf.GOMAXPROCS)
+		}
 		var pre [][]uint64
 		var preRuns []uint64
 		for _, f := range strings.Split(*runs, ",") {
@@ -278,6 +282,9 @@ func replay(exe, path string, quiet, child bool) int {
 	if !ok {
 		fmt.Fprintln(os.Stderr, "unknown property", rf.Property)
 		return 2
+	}
+	if rf.GOMAXPROCS > 0 {
+		runtime.GOMAXPROCS(rf.GOMAXPROCS)
 	}
 	want := rf.Violation.Fingerprint()
 	if (rf.Tape == nil || strings.HasPrefix(rf.Violation.Class, "process-")) && !child {
